@@ -32,7 +32,7 @@ class Ref(Expression):
         else:
             func = Code(self.resolved)
 
-        out += (STATUS, RESULT, POS) << Yield((CALL, func, POS))
+        out += (STATUS, RESULT, POS) << utils.call_rule(func, POS)
 
     def argumentize(self, out, flags):
         # A rule passed as an argument is looked up like any other reference:
